@@ -1,5 +1,21 @@
 import Pfb.PyCore.Json
+import Pfb.PyCore.Exec
 open Lean Pfb Pfb.Drv Pfb.PyCore
+
+def rval (j : Json) : Except String RVal := do
+  let a ← j.getArr?
+  match (← a[0]!.getStr?) with
+  | "mod" => pure (.mod (← a[1]!.getNat?))
+  | "none" => pure .none
+  | _ => pure .opq
+
+def excName : Exc → String
+  | .nameError _ => "NameError"
+  | .localError _ => "Local"
+  | .attrError _ => "AttributeError"
+  | .user => "UserExc"
+  | .other => "Other"
+  | .fuel => "Fuel"
 
 def handle (j : Json) : Except String Json := do
   let op ← jstr j "op"
@@ -11,6 +27,26 @@ def handle (j : Json) : Except String Json := do
     let reg ← J.registry (← jobj j "registry")
     let st := analyze reg builtins ns prog
     pure (Json.mkObj [("missing", strsJ (sortedSet (st.missing.map (·.name))))])
+  | "exec" =>
+    let body ← J.stmts (← jobj j "body")
+    let calls ← J.stmts (← jobj j "calls")
+    let globals ← (← jarr j "globals").toList.mapM fun kv => do
+      let a ← kv.getArr?
+      pure (← J.sstr a[0]!, ← rval a[1]!)
+    let mods ← (← jarr j "mods").toList.mapM fun m => do
+      let a ← m.getArr?
+      let attrs ← (← a[1]!.getArr?).toList.mapM fun kv => do
+        let b ← kv.getArr?
+        pure (← J.sstr b[0]!, ← rval b[1]!)
+      pure ({ name := ← J.sstr a[0]!, attrs := attrs } : ModObj)
+    let builtins ← J.strs (← jobj j "builtins")
+    let fuel ← jnat j "fuel"
+    let st : XState := { globals := globals, builtins := builtins, mods := mods,
+                         loaded := (mods.zipIdx).map (fun (m, i) => (m.name, i)) }
+    let (s, r) := runProgram fuel body calls st
+    let outcome := match r with | .ok _ => "ok" | .error e => excName e
+    pure (Json.mkObj [("ne", strsJ s.ne), ("ae", strsJ s.ae), ("lne", strsJ s.lne), ("outcome", Json.str outcome),
+                      ("early", Json.bool s.early), ("other", Json.bool s.otherRaised)])
   | _ => throw s!"unknown op {op}"
 
 def main : IO Unit := serve handle
